@@ -1046,14 +1046,18 @@ package mast
 
 //@ func (*Mast).DiffIter
 //@ tags C06 C12 C15
-//@ modifies W G.loads Map.Int.Any Map.Int.Any.has iterItemStack.* Arr.S_iterItem diffState.* iterItem.*@fresh entry.*@fresh Arr.Any@fresh Node.*@fresh mastNode.*@fresh Box.Bytes@fresh
+//@ requires fresh [C06] (and (not (G.cbFailed H)) (not (G.cbStopped H)))
+//@ ensures cbfail [C06] (=> (G.cbFailed H) (isErr err))
+//@ modifies W G.loads G.cbFailed G.cbStopped Map.Int.Any Map.Int.Any.has iterItemStack.* Arr.S_iterItem diffState.* iterItem.*@fresh entry.*@fresh Arr.Any@fresh Node.*@fresh mastNode.*@fresh Box.Bytes@fresh
 //@ requires cfg (and (> m 0) (not (= (Mast.keyOrder H m) 0)) (not (= (Mast.keyLayer H m) 0)) (>= oldMast 0) (=> (> oldMast 0) (not (= (Mast.keyLayer H oldMast) 0))) (DiffGlobalsOK H))
 //@ requires closure [T3] (AllOK H)
 //@ ensures readonly [C06 C12] (NodesSame H0 H W0)
 
 //@ func (*Mast).DiffLinks
 //@ tags C07 C12 C15
-//@ modifies W G.loads Map.Int.Any Map.Int.Any.has iterItemStack.* Arr.S_iterItem diffState.* iterItem.*@fresh entry.*@fresh Arr.Any@fresh Node.*@fresh mastNode.*@fresh Box.Bytes@fresh
+//@ requires fresh [C07] (and (not (G.cbFailed H)) (not (G.cbStopped H)))
+//@ ensures cbfail [C07] (=> (G.cbFailed H) (isErr err))
+//@ modifies W G.loads G.cbFailed G.cbStopped Map.Int.Any Map.Int.Any.has iterItemStack.* Arr.S_iterItem diffState.* iterItem.*@fresh entry.*@fresh Arr.Any@fresh Node.*@fresh mastNode.*@fresh Box.Bytes@fresh
 //@ requires cfg (and (> m 0) (not (= (Mast.keyOrder H m) 0)) (not (= (Mast.keyLayer H m) 0)) (>= oldMast 0) (=> (> oldMast 0) (not (= (Mast.keyLayer H oldMast) 0))) (DiffGlobalsOK H))
 //@ requires closure [T3] (AllOK H)
 //@ ensures readonly [C07 C12] (NodesSame H0 H W0)
@@ -1328,7 +1332,7 @@ package mast
 //@ loop 1 invariant unlocked (not (select (G.held H) seLock))
 
 //@ func (*Mast).flush
-//@ tags C03 C12 C13
+//@ tags C03 C04 C09 C12 C13
 //@ modifies W G.loads G.durable G.waited G.held Mast.root Arr.Any Node.*@fresh mastNode.dirty mastNode.shared mastNode.source mastNode.expected@fresh Box.Any@fresh Box.Int@fresh Box.Bytes@fresh Box.BS@fresh Box.S_mastNode@fresh
 //@ requires ok (and (> m 0) (RootOK H m) (=> (isPtr (Mast.root H m)) (Shape H (a.val (Mast.root H m)))))
 //@ requires nolocks (forall ((q Int)) (! (not (select (G.held H) q)) :pattern ((select (G.held H) q))))
@@ -1338,6 +1342,8 @@ package mast
 //@ ensures nilroot [C13] (=> (and (not (isNil (Mast.persist H0 m))) (isNil (Mast.root H0 m))) (and (= err anil) (= result0 "") (= (Mast.root H m) (Mast.root H0 m)) (NodesSame H0 H W0) (= (G.durable H) (G.durable H0))))
 //@ ensures ok [C03 C13] (=> (and (= err anil) (not (isNil (Mast.root H0 m))) (not (= result0 ""))) (and (= (Mast.root H m) (strAny result0)) (G.waited H)))
 //@ ensures fail [C03 C12] (=> (isErr err) (= (Mast.root H m) (Mast.root H0 m)))
+// a tree without entries has no nodes: nothing is written and the root link is empty (C04, C09)
+//@ ensures emptyroot [C04 C09 C13] (=> (and (not (isNil (Mast.persist H0 m))) (isPtr (Mast.root H0 m)) (= (nlinks H0 (a.val (Mast.root H0 m))) 1) (isNil (LinkAt H0 (a.val (Mast.root H0 m)) 0))) (and (= err anil) (= result0 "") (= (G.durable H) (G.durable H0))))
 // persisting a tree whose top node is clean and already has a name writes nothing and returns that name
 //@ ensures cleanroot [C13] (=> (and (not (isNil (Mast.persist H0 m))) (isPtr (Mast.root H0 m)) (not (mastNode.dirty H0 (a.val (Mast.root H0 m)))) (not (= (mastNode.source H0 (a.val (Mast.root H0 m))) 0)) (not (and (= (nlinks H0 (a.val (Mast.root H0 m))) 1) (isNil (LinkAt H0 (a.val (Mast.root H0 m)) 0)))) (or (not (isNil (Mast.zeroKey H0 m))) (Mast.unmarshalerUsesRegisteredTypes H0 m)) (or (not (isNil (Mast.zeroValue H0 m))) (Mast.unmarshalerUsesRegisteredTypes H0 m))) (and (= err anil) (= (G.durable H) (G.durable H0)) (= result0 (deref.Bytes H0 (mastNode.source H0 (a.val (Mast.root H0 m)))))))
 //@ ensures sharedclean [C02 C11 C13] (SharedClean H)
